@@ -93,24 +93,4 @@ st('htp_connp_REQ_FINALIZE', ['C06', 'C09', 'C16', 'C01'], 'after a complete req
           1: dict(assigns='pos', inv=['pos <= len'], dec='len - pos'),
           2: dict(assigns='pos', inv=['pos <= len', 'mstart <= pos'], dec='len - pos')})
 
-import os as _os
-# does not close within 1 h (coarse whole-object havoc inside the for(;;) loop plus ten stubs): kept for further work, not registered
-if _os.environ.get('SM_EXPERIMENTAL'):
-  UNITS.append(U(name='htp_connp_REQ_HEADERS', props=['C10', 'C09', 'C01'], kind='contract', src=['htp_request.c'], link=['htp_util.c', 'bstr.c'], enforce='htp_connp_REQ_HEADERS',
-               replace=['htp_connp_req_consolidate_data', 'htp_connp_req_clear_buffer', 'htp_process_request_header_generic/contract_site_process_request_header',
-                        'htp_connp_is_line_terminator', 'htp_connp_is_line_folded', 'htp_chomp', 'bstr_dup_mem/contract_site_bstr_dup_mem', 'bstr_add_mem/contract_site_bstr_add_mem',
-                        'htp_tx_state_request_headers/contract_site_htp_tx_state_request_headers', 'htp_log'],
-               contracts_inc=INC, harness=H % 'htp_connp_REQ_HEADERS', defs=D, min_obl=100, timeout=(900, 2400), solver='--sat-solver cadical', objbits=12,
-               pre_instrument=sum([['--restrict-function-pointer', 'htp_connp_REQ_HEADERS.function_pointer_call.%d/htp_process_request_header_generic' % i] for i in (1, 2, 3, 4)], []),
-               loops={'htp_request.c': {'htp_connp_REQ_HEADERS': {'count': 2,
-                   0: dict(assigns='g_consol_n, g_consol_len, g_clear_n, g_hdrproc_n, __CPROVER_object_whole(connp), connp->in_tx->flags',
-                           inv=['CUR_IN_CURSOR(connp)', 'connp->in_current_len == __CPROVER_loop_entry(connp->in_current_len)', 'connp->in_current_data == __CPROVER_loop_entry(connp->in_current_data)',
-                                'connp->in_tx == __CPROVER_loop_entry(connp->in_tx)', 'connp->cfg == __CPROVER_loop_entry(connp->cfg)', 'connp->conn == __CPROVER_loop_entry(connp->conn)',
-                                'connp->in_chunk_count == __CPROVER_loop_entry(connp->in_chunk_count)', 'connp->in_state == htp_connp_REQ_HEADERS',
-                                'connp->in_status == __CPROVER_loop_entry(connp->in_status)', 'connp->in_current_read_offset >= __CPROVER_loop_entry(connp->in_current_read_offset)',
-                                'connp->in_stream_offset <= OFFMAX + connp->in_current_read_offset', 'HDR_OK(connp->in_header)', 'g_txstate_n == 0'],
-                           dec='connp->in_current_len - connp->in_current_read_offset'),
-                   1: dict(assigns='trim', inv=['trim <= len'], dec='len - trim')}}},
-               sub='request header block: pending folded header stays within HTP_MAX_HEADER_FOLDED plus one line; DATA_BUFFER only with the chunk exhausted; cursor order kept; terminates (every iteration consumes a byte)',
-               assumes=A[:1] + ['cfg->process_request_header restricted to htp_process_request_header_generic (the Apache variant is a delegate) and replaced by a frame contract',
-                                'consolidate/clear_buffer/line classification/chomp/bstr_dup_mem/bstr_add_mem/htp_tx_state_request_headers replaced by contracts']))
+# (the htp_connp_REQ_HEADERS attempt that used to live here behind SM_EXPERIMENTAL is superseded by units/sm_reqline.py)
